@@ -153,7 +153,8 @@ TypeOf(e, G, F, L, inDecl) ==
                                  IF b.bad # "" THEN [t |-> Bad(b.bad), L |-> L]
                                  ELSE LET nt == TL(bodyE, b.L) IN
                                       IF IsBad(nt) THEN [t |-> nt, L |-> b.L]
-                                      ELSE IF nt = it \/ k = 1 THEN [t |-> IF nt = it THEN it ELSE nt, L |-> b.L]
+                                      ELSE IF nt = it THEN [t |-> it, L |-> b.L]
+                                      ELSE IF k = 1 THEN [t |-> Bad("recursionDiverges"), L |-> b.L]   \* no round reproduced its own type
                                       ELSE Loop(k - 1, nt)
                                r == Loop(5, it0)
                            IN IF IsBad(r.t) THEN r.t
